@@ -31,6 +31,40 @@ def worker_dir(w):
     cfg = open(wd + "/harness/.cargo/config.toml").read().replace("/verif/.build/target", wd + "/target")
     open(wd + "/harness/.cargo/config.toml", "w").write(cfg)
     return wd
+def affected_props(wd):
+    """properties whose agreement theorems are about a declaration whose translation changed (or left the
+    translators' subset) under the patch applied in wd/repo: the only checks a behaviour-preserving
+    change can trip through the function-level tie"""
+    sys.path.insert(0, ROOT + "/tools")
+    import propcfg
+    tmp = wd + "/trout"; shutil.rmtree(tmp, ignore_errors=True); os.makedirs(tmp)
+    changed, allf = set(), {}
+    blk = re.compile(r"^-- BEGIN (.+?)\n(.*?)^-- END ", re.S | re.M)
+    for sfx in ("", "2", "3", "4", "5a", "5b", "6a", "6b", "6c", "6d"):
+        com = "%s/lean/JsonbModel/Generated/Translated%s.lean" % (ROOT, sfx)
+        env = "VERIF_REPO=%s/repo RS2LEAN%s_OUT=%s/T%s.lean RS2LEAN%s_PREV=%s" % (wd, sfx.upper(), tmp, sfx, sfx.upper(), com)
+        rc, out = sh("%s python3 tools/rs2lean%s.py 2>/dev/null | tail -n 1" % (env, sfx), ROOT)
+        try: fn = json.loads(out)["functions"]
+        except Exception: fn = {}
+        for k, v in fn.items():
+            allf[k] = v
+            if v != "translated": changed.add(k)
+        new = "%s/T%s.lean" % (tmp, sfx)
+        if os.path.exists(new):
+            a = dict(blk.findall(open(com).read())); b = dict(blk.findall(open(new).read()))
+            changed |= {k for k in set(a) | set(b) if a.get(k) != b.get(k)}
+    # a recursive group is one block: its members count as declarations of their own
+    for k in list(allf) + list(changed):
+        m = re.match(r"^(.*)::(?:group|types) \w* ?\((.*)\)$", k)
+        if m:
+            for mem in m.group(2).split(","):
+                kk = m.group(1) + "::" + mem.strip()
+                allf[kk] = allf.get(k, "translated")
+                if k in changed: changed.add(kk)
+    props = []
+    for pid, names in propcfg.TIE.items():
+        if any(set(propcfg.tie_sources(n, allf)) & changed for n in names): props.append(pid)
+    return sorted(props), sorted(changed)
 def run_check(pid, wd):
     rc, out = sh("VERIF_SCRATCH=%s VERIF_EVIDENCE_DIR=%s/evidence ./check %s quick" % (wd, wd, pid), ROOT)
     viol = [l for l in out.splitlines() if l.startswith("VIOLATION")]
@@ -71,7 +105,11 @@ def main():
                 print(hid, "patch does not apply:", out); return
             r = {}
             only = [a.split("=")[1].split(",") for a in args if a.startswith("--props=")]
-            for pid in ([hid.split("-")[0]] if own else (only[0] if only else claimed)):
+            plist = [hid.split("-")[0]] if own else (only[0] if only else claimed)
+            chg = None
+            if "--affected" in args:
+                plist, chg = affected_props(wd)
+            for pid in plist:
                 p, rc2, viol, summ = run_check(pid, wd)
                 r[p] = {"rc": rc2, "violation": viol, "summary": summ}
             alarms = sorted(p for p, x in r.items() if x["rc"] != 0)
@@ -81,7 +119,7 @@ def main():
                     if m and os.path.exists(m.group(1)):
                         if sub == "harmless": sh("cp %s %s/harmless/%s/replay-%s.json" % (m.group(1), ROOT, hid, p))
             with lock:
-                results[hid] = {"class": meta.get("class"), "summary": meta.get("summary", "")[:300], "alarms": alarms,
+                results[hid] = {"class": meta.get("class"), "checks_run": plist, "changed_translations": chg, "summary": meta.get("summary", "")[:300], "alarms": alarms,
                                 "alarm_lines": {p: r[p]["violation"] + [r[p]["summary"]] for p in alarms}}
                 json.dump(results, open(resf, "w"), indent=1, sort_keys=True)
                 print(hid, "class", meta.get("class"), "alarms:", alarms, flush=True)
